@@ -501,3 +501,11 @@ pub fn batch_check_scalar(ctx: &mut Ctx, rng: &mut Rng, id: &str, c: &Case, cs: 
     ctx.ses.ask(id, req, out);
     o3
 }
+
+/// the challenges a fresh sponge yields: SonicKZG10 never absorbs, so `open`, `check`, `batch_open`
+/// and `batch_check` all see this very sequence whatever the statement is
+pub fn fresh_challenges(n: usize) -> Vec<Fr> {
+    use ark_crypto_primitives::sponge::CryptographicSponge;
+    let mut sp = LogSponge::fresh();
+    (0..n).map(|_| sp.squeeze_field_elements_with_sizes::<Fr>(&[ark_poly_commit::CHALLENGE_SIZE])[0]).collect()
+}
